@@ -3,7 +3,7 @@
 # of the properties whose functions live in the touched file, expect exit 0, undo the patch.
 if [ -n "$(git -C /repo status --porcelain)" ]; then echo "refusing: /repo has uncommitted changes"; exit 3; fi
 rc=0
-for f in /verif/harmless/h*.diff /verif/harmless/g*.diff; do
+for f in ${HARMLESS_FILES:-/verif/harmless/h*.diff /verif/harmless/g*.diff /verif/harmless/k*.diff}; do
   [ -f "$f" ] || continue
   file=$(grep '^+++ b/' $f | head -1 | sed 's/+++ b\///')
   case "$file" in
@@ -14,6 +14,8 @@ for f in /verif/harmless/h*.diff /verif/harmless/g*.diff; do
     *security/jwt.go) props="C02 C03 C04 C07 C12 C15 C10" ;;
     *web/basic.go|*web/ntlm.go) props="C05 C10" ;;
     *web/oidc.go) props="C12 C13 C10" ;;
+    *web/context.go) props="C04 C05 C10" ;;
+    *cmd/rdpgw/main.go) props="C02 C03 C04 C05 C16 C17" ;;
     *web/web.go) props="C12 C18 C10" ;;
     *config/configuration.go) props="C18 C05 C10" ;;
     *kdcproxy/proxy.go) props="C20 C10" ;;
